@@ -6,6 +6,7 @@ INVARIANT RenderedLiteralIsValidPython
 INVARIANT EvaluatesToRequestedType
 INVARIANT RoundTrip
 INVARIANT ParseBackAgrees
+INVARIANT IntLiteralIsParseable
 INVARIANT RenderNeverFails
 INVARIANT AssertionHoldsOnObservedValue
 INVARIANT ExecutionObservesTheLiteral
